@@ -24,6 +24,13 @@ Decided:
   R06.f  the first matching route answers also when its endpoint dies with an uncaught exception of *any* type: the
          conversion that runs inside dispatch's generic handler (uncaught_to_response, the server-error constructors)
          looks no module attribute up under a computed name without a default or a handler.
+  R06.g  a path that passes a route's regex but fails conversion is "no match" (the next route is tried), never an
+         exception out of match_path (which dispatch calls outside its handler): every converter call runs under a handler
+         for ValueError and TypeError that returns None (shared with R08.f);
+  R06.h  result class agreement: the class X of ``isinstance(context, X)`` in the generated process_request -- followed
+         through the environment dict handed to compile_code, parameters of the creating function with their defaults and
+         the arguments callers pass, and the module's imports -- is the class dispatch tests its result with, or a base of
+         it, and HTTPException has both in its MRO (a returned error is neither rendered nor refused).
 Declined: which pattern matches (C05); full response content.
 """
 import ast
@@ -131,6 +138,33 @@ def run(rep):
         from .c08 import check_conversion_lookups
         check_conversion_lookups(rep, 'R06.f')
     run_group(rep, conversion_rules)
+
+    def no_match_rules():
+        # ---- R06.g -----------------------------------------------------------
+        rep.rule('R06.g', 'a path the route\'s regex admits but whose segments cannot be converted is a path mismatch -- the next route is '
+                          'tried, finally 404 / 405 -- not an exception: dispatch calls route.match_path outside its handler, so every '
+                          'converter call runs, at the point where it is evaluated, under a handler for ValueError and TypeError that returns None')
+        from .c05 import check_match_path_no_raise
+        check_match_path_no_raise(rep, 'R06.g')
+        # ... and match_path lets nothing out on purpose either: a ``raise`` of its own (in particular a re-raise in the handler
+        # that stands for "no match") is contained by a handler of match_path itself
+        from .common import protected_by
+        mp = route.func('BoundRoute.match_path')
+        loose = [r for r in raises_of(mp) if r.exc is None or protected_by(mp, r, raise_type(r) or 'Exception') is None]
+        rep.check('R06.g', fkey(mp, 'raises nothing itself'), not loose,
+                  'match_path has no raise statement that can leave it' if not loose else
+                  'match_path raises (%s): dispatch calls it outside its handler, so instead of "no match -> next route -> 404 / 405" the '
+                  'exception leaves dispatch' % short(loose[0], 50), route, loose[0] if loose else mp.node)
+    run_group(rep, no_match_rules)
+
+    def result_class_rules():
+        # ---- R06.h -----------------------------------------------------------
+        rep.rule('R06.h', 'an HTTP error an endpoint returns reaches dispatch as it is: the class whose instances the generated request '
+                          'core hands back unrendered is the class dispatch accepts as a finished result (or a base of it), and '
+                          'HTTPException derives from both')
+        from .dispatch import check_result_class_agreement
+        check_result_class_agreement(rep, 'R06.h')
+    run_group(rep, result_class_rules)
 
 
 def check_running_index(rep, rule):
